@@ -9,11 +9,12 @@ import random
 from vlib import slivergen as SG
 from vlib import codecgen
 from vlib import rawgraph
+from vlib import topogen
 
 PROPERTY = 'C02'
 LEVEL = 'exploration'
 SHARDS = {'quick': 4, 'thorough': 16}
-TIME_BUDGET = {'quick': 50, 'thorough': 780}
+TIME_BUDGET = {'quick': 100, 'thorough': 850}
 
 KINDS = SG.KINDS
 ELEM = {'node': 'Node', 'component': 'Component', 'service': 'NetworkService', 'interface': 'Interface',
@@ -118,7 +119,9 @@ def discover(ctx):
         ctx.mark_inconclusive(f'settable property {x} has no typed value generator: it is NOT covered')
     for x in gone:
         ctx.mark_inconclusive(f'pinned property {x} is no longer listed by list_properties()')
-    return vocab
+    # the rest of the vocabulary is still exercised
+    bad = {x.split(' ')[0] for x in nogen}
+    return {k: tuple(p for p in vocab[k] if f'{k}.{p}' not in bad) for k in KINDS}
 
 
 # ----------------------------------------------------------------------------------------------
@@ -592,6 +595,7 @@ def plan(vocab):
 
 
 def run_one(ctx, vocab, item, case_seed, idx=0):
+    topogen.seed_uuid(case_seed)        # ids the library draws from uuid4 are reproducible per case
     if item[0] == 'sliver':
         sliver_case(ctx, vocab, item[1], item[2], case_seed, idx)
     else:
@@ -599,6 +603,7 @@ def run_one(ctx, vocab, item, case_seed, idx=0):
 
 
 def run(ctx):
+    SG.use_fast_strings()
     vocab = discover(ctx)
     try:
         items = plan(vocab)
@@ -606,7 +611,7 @@ def run(ctx):
             if i % ctx.nshards != ctx.shard:
                 continue
             run_one(ctx, vocab, item, f'{ctx.seed}/sys/{i}', i)
-        n = ctx.pick(330, 5000)
+        n = ctx.pick(420, 6000)
         combos = [(st, fl) for st in ('shared', 'disjoint') for fl in ('experiment', 'substrate')]
         for i in range(n):
             if ctx.out_of_time():
@@ -633,8 +638,10 @@ def run(ctx):
 
 def replay(ctx, case):
     w = case['witness']
+    SG.use_fast_strings()
     vocab = discover(ctx)
     mode = tuple(w['mode']) if isinstance(w['mode'], list) else w['mode']
+    topogen.seed_uuid(w['case_seed'])
     if w.get('part') == 'element':
         element_case(ctx, vocab, w['kind'], mode, w['store'], w['topology'], w['case_seed'])
     else:
